@@ -70,6 +70,12 @@ func c10Probes() []geojson.Object {
 		geojson.NewFeature(geojson.NewGeometryCollection([]geojson.Object{geojson.NewPoint(gpt(0, 0)), geojson.NewPoint(gpt(1, 1))}), ""),
 		geojson.NewLineString(geometry.NewLine(nil, nil)),
 		geojson.NewCircle(gpt(0, 0), 300000, 64), geojson.NewCircle(gpt(5, 5), 10000, 64), geojson.NewCircle(gpt(0.5, 0.5), 60000, 12),
+		// nested collections as arguments: a part that is not contained inside an inner collection, followed by one that is
+		geojson.NewGeometryCollection([]geojson.Object{geojson.NewMultiPoint([]geometry.Point{gpt(5, 5)}), geojson.NewPoint(gpt(0, 0))}),
+		geojson.NewGeometryCollection([]geojson.Object{geojson.NewMultiPoint([]geometry.Point{gpt(0, 0)}), geojson.NewPoint(gpt(5, 5))}),
+		geojson.NewGeometryCollection([]geojson.Object{geojson.NewGeometryCollection([]geojson.Object{geojson.NewPoint(gpt(5, 5)), geojson.NewPoint(gpt(1, 1))}), geojson.NewGeometryCollection(nil), geojson.NewPoint(gpt(0, 0))}),
+		geojson.NewFeatureCollection([]geojson.Object{geojson.NewGeometryCollection([]geojson.Object{geojson.NewLineString(geometry.NewLine([]geometry.Point{gpt(3, 3), gpt(4, 4)}, nil)), geojson.NewPoint(gpt(1, 1))}), geojson.NewFeature(geojson.NewPoint(gpt(0, 0)), "")}),
+		geojson.NewGeometryCollection([]geojson.Object{geojson.NewMultiPolygon([]*geometry.Poly{sq(3, 3, 4, 4), sq(-1, -1, 0, 0)}), geojson.NewPoint(gpt(-0.5, -0.5))}),
 	}
 	return out
 }
@@ -91,6 +97,19 @@ func partsOf(x geojson.Object) []geojson.Object {
 	var ps []geojson.Object
 	x.ForEach(func(g geojson.Object) bool { ps = append(ps, g); return true })
 	return ps
+}
+
+// modelParts: the parts ForEach must yield, in order: a collection yields
+// its children's parts, every other object (a Feature included) itself.
+func modelParts(o geojson.Object) []geojson.Object {
+	if c, ok := o.(geojson.Collection); ok {
+		var out []geojson.Object
+		for _, k := range c.Children() {
+			out = append(out, modelParts(k)...)
+		}
+		return out
+	}
+	return []geojson.Object{o}
 }
 
 func unionRect(a, b geometry.Rect) geometry.Rect {
@@ -171,6 +190,27 @@ func c10Check(coll geojson.Object, expectChildren []string, probes []geojson.Obj
 	}
 	if coll.NumPoints() != npts {
 		return "numpoints", fmt.Sprint(npts), fmt.Sprint(coll.NumPoints())
+	}
+	// iteration: parts in document order, early stop honoured at every position
+	want := modelParts(coll)
+	var gotParts []geojson.Object
+	full := coll.ForEach(func(g geojson.Object) bool { gotParts = append(gotParts, g); return true })
+	w.Evals++
+	if !full || len(gotParts) != len(want) {
+		return "foreach", fmt.Sprintf("%d parts, returns true", len(want)), fmt.Sprintf("%d parts, returns %v", len(gotParts), full)
+	}
+	for i := range want {
+		if gotParts[i] != want[i] {
+			return "foreach-order", want[i].JSON(), gotParts[i].JSON()
+		}
+	}
+	for stop := 1; stop <= len(want); stop++ {
+		calls := 0
+		ret := coll.ForEach(func(geojson.Object) bool { calls++; return calls != stop })
+		w.Evals++
+		if calls != stop || ret {
+			return "foreach-early-stop", fmt.Sprintf("%d callbacks, returns false", stop), fmt.Sprintf("%d callbacks, returns %v", calls, ret)
+		}
 	}
 	// search
 	for _, q := range queries {
